@@ -2,6 +2,7 @@
    growth, memory stream). Statements only; proofs live in Map/C03Proofs.v.
    The snapshot's code is kept in the model as *_orig and REFUTED; the repaired code (fix: commits) is proved safe. *)
 From GV Require Import Map.GridIndex Map.GridOps Map.Setup Map.MapSg Map.SetupProofs Map.Stream Map.GzGrow Map.C03Proofs Map.SymmSafe.
+From GV Require Mtz.Data Mtz.DataProofs.
 Local Open Scope Z_scope.
 
 (* --- the snapshot: headers that pass every test the reader makes (MAPC/MAPR/MAPS a permutation, supported mode,
@@ -64,3 +65,21 @@ Theorem C03_stream_never_past_end : forall ops size cur, 0 <= cur <= size -> for
   Forall (sres_ok size) (run step size cur ops).
 Proof. exact stream_never_past_end. Qed.
 Print Assumptions C03_stream_never_past_end.
+
+(* --- MTZ: the first 20 bytes. Snapshot: any int64 is taken as the header offset and turned into a word count
+   (offset - 21) and a byte position 4*(offset - 1) in signed arithmetic; a 20-byte prologue with the 64-bit escape
+   and offset 2^62 + 21 passes every test and overflows *)
+Theorem C03_mtz_offset_orig_refuted : exists b same off,
+  Mtz.Data.read_first_raw b = Some (same, off) /\ 2 ^ 63 <= 4 * (off - 1).
+Proof.
+  exists ([77; 84; 90; 32] ++ Mtz.Data.enc32 (-1) ++ [68; 65; 0; 0] ++ Mtz.Data.enc64 (2 ^ 62 + 21)), true, (2 ^ 62 + 21).
+  split; vm_compute; [reflexivity|discriminate].
+Qed.
+Print Assumptions C03_mtz_offset_orig_refuted.
+
+(* repaired: whatever the 20 bytes are, an accepted header offset gives a non-negative word count and a byte
+   position inside int64 (the data block [80, 80 + 4n) is then read through the stream of C03_stream_never_past_end) *)
+Theorem C03_mtz_offset_arithmetic_safe : forall b same off, Mtz.Data.read_first b = Some (same, off) ->
+  21 <= off /\ 0 <= off - 1 - 20 /\ 4 * (off - 1) < 2 ^ 63 /\ 4 * (off - 1 - 20) < 2 ^ 63.
+Proof. exact Mtz.DataProofs.read_first_offset_range. Qed.
+Print Assumptions C03_mtz_offset_arithmetic_safe.
